@@ -100,6 +100,16 @@ def gen_plain(rng: Rng, n: int, cls: str) -> bytes:
     if cls == "periodic":
         unit = rng.bytes_(rng.pick([2, 7, 64, 300]))
         return (unit * (n // len(unit) + 1))[:n]
+    if cls == "records":
+        # log lines / JSON records: a constant prefix and a random field per line; long enough to need several DEFLATE blocks, so
+        # the first block is a non-final dynamic-Huffman block whose first octet depends on the longest match (the prefix length)
+        prefix = bytes(rng.pick(b'abcdefghijklmnopqrstuvwxyz0123456789 :=-_/"{},') for _ in range(rng.randrange(8, 90)))
+        flen = rng.pick([4, 8, 12, 16, 24])
+        fields = rng.bytes_((n // (len(prefix) + flen + 1) + 1) * (flen // 2)).hex().encode()
+        out = bytearray()
+        for i in range(0, len(fields), flen):
+            out += prefix + fields[i:i + flen] + b"\n"
+        return bytes(out[:n])
     if cls == "text":
         unit = b"The quick brown fox jumps over the lazy dog. "
         return (unit * (n // len(unit) + 1))[:n]
@@ -152,7 +162,10 @@ def run(rng: Rng, tier: str, index: int) -> RunResult:
     crng = rng.sub("cases")
     for _ in range(crng.randrange(4, 8) if not thorough else crng.randrange(8, 14)):
         n = crng.pick(lens) if crng.chance(0.8) else crng.randrange(0, 400000)
-        cases.append(("plain", n, crng.pick(["constant", "periodic", "random", "text"]), crng.pick(["joserfc", "peer-raw", "peer-raw", "peer-zlib-wrapped"])))
+        cases.append(("plain", n, crng.pick(["constant", "periodic", "random", "text", "records"]), crng.pick(["joserfc", "peer-raw", "peer-raw", "peer-zlib-wrapped"])))
+    for _ in range(2 if not thorough else 5):
+        # what applications actually compress: records of tens of kilobytes, made by the library itself
+        cases.append(("plain", crng.pick([20000, 65536, 131072, 200000, LIMIT - 7, crng.randrange(17000, LIMIT)]), "records", "joserfc"))
     for _ in range(1 if not thorough else 3):
         cases.append(("plain", crng.pick([LIMIT, LIMIT, LIMIT - 1, LIMIT + 1, 100000, 10]), crng.pick(["periodic", "random", "text", "constant"]), "peer-concatenated"))
     for _ in range(1 if not thorough else 3):
